@@ -35,6 +35,16 @@ def gen_spec(rng):
     if ctrl == "main-ict":
         from . import c06
         spec["ctrl"]["ict"] = c06.fallible_ict(rng, spec)
+    if ctrl != "manual":
+        # a main controller that fails: hardware failures and software failures with every repair outcome (cured by the new
+        # signal / by the reboot / manual repair), chosen in turn so that each path is taken in every run
+        gen_spec.turn = getattr(gen_spec, "turn", 0) + 1
+        p_new, p_reboot = [(None, None), (1.0, 0.0), (1.0, 1.0), (0.0, None)][gen_spec.turn % 4]
+        spec["ctrl"]["hw_rate"] = rng.choice([0, 300]); spec["ctrl"]["sw_rate"] = rng.choice([800, 2500])
+        if p_new is not None:
+            spec["ctrl"]["p_new"] = p_new
+        if p_reboot is not None:
+            spec["ctrl"]["p_reboot"] = p_reboot
     for fd in spec["feeders"]:
         n = len(fd["parent"])
         if rng.random() < 0.5:
